@@ -1,6 +1,7 @@
 package sim
 
 import (
+	"bytes"
 	"context"
 	"fmt"
 	"net"
@@ -128,6 +129,20 @@ func c18ServerRun(e *Env) {
 	if kind == "dtls" && hsDur > 0 {
 		e.Fault("handshake.slow")
 		e.Sleep(hsDur)
+		e.Wait()
+	}
+	// tcp: one more peer that asks for more than it reads - its socket buffer is full, the server's write to it blocks.
+	// It is nobody's business but its own: the other connections' housekeeping goes on.
+	if kind == "tcp" && !reconnect && t.Chance(1, 3) {
+		st := &c10Client{id: 99, addr: UDPAddr("10.0.1.99", 49999)}
+		w.connect(st)
+		e.Wait()
+		st.sc.peer.LimitOut(24)
+		e.Fault("peer.stopsReading")
+		e.Probe("peer.stalledWriter")
+		e.Logf("peer 99 sends a request and does not read the answer (the server's write to it blocks)")
+		st.sc.peer.InjectIn(EncodeTCP(&WMsg{Code: 2, Token: []byte{0x99}, Opts: []WOpt{{Num: OptURIPath, Val: []byte("echo")}}, Payload: bytes.Repeat([]byte("x"), 200)}))
+		st.sc.peer.ReleaseIn(1 << 30)
 		e.Wait()
 	}
 	established := e.Now()
